@@ -49,7 +49,7 @@ type Adapter interface {
 	Teardown() string
 }
 
-const Watchdog = 10 * time.Second
+const Watchdog = 30 * time.Second
 
 // Run executes the steps (inputs only) and fills in what happened.  Returns false if a call hung (the caller
 // should stop using this process).
